@@ -177,7 +177,7 @@ HarmFailed(e) ==
                  ~(LeUlp(e.auxv.hmean, e.auxv.gmean, PrecE(e), MeanIneqUlps(e.auxv.gmean)) /\ LeUlp(e.auxv.gmean, e.auxv.amean, PrecE(e), MeanIneqUlps(e.auxv.gmean)))}
 
 \* ---------------------------------------------------------------- dispatch
-PropOf(e) == IF PROP = "C06" THEN "C06" ELSE "C01"
+PropOf(e) == IF PROP \in {"C06", "C09"} THEN PROP ELSE "C01"
 Failed1(e) ==
     CASE e.fl = "arith"    -> ArithFailed(e, PropOf(e))
       [] e.fl = "paired"   -> PairedFailed(e)
